@@ -10,6 +10,7 @@
 #include <atomic>
 #include <cctype>
 #include <chrono>
+#include <deque>
 #include <fstream>
 #include <functional>
 #include <iostream>
@@ -882,34 +883,88 @@ protected:
         if (it != _sessionInfo.end())
         {
           it->second.buffer = dataStr;
+          // Requests of one connection are processed one at a time so that the
+          // responses leave in request order (RFC 9112 9.3.2): while one is in
+          // flight, later pipelined ones wait in the session's queue.
+          if (it->second.requestInFlight)
+          {
+            it->second.pendingRequests.push_back(std::move(requestData));
+            continue;
+          }
+          it->second.requestInFlight = true;
         }
       }
 
+      dispatchSequenced(sid, std::move(requestData));
+    }
+  }
+
+  /// \brief Hand one request of \p sid to the worker pool; once it has been
+  /// answered the next queued request of the same connection follows.
+  void dispatchSequenced(SessionId sid, std::string requestData)
+  {
+    for (;;)
+    {
       // Process request in thread pool to avoid blocking transport
       // Use tryEnqueue for backpressure - reject requests if queue is full
-      if (!_threadPool.tryEnqueue([this, sid, requestData]()
-                                  { processHttpRequest(sid, requestData); }))
+      if (_threadPool.tryEnqueue([this, sid, requestData]()
+                                 {
+                                   processHttpRequest(sid, requestData);
+                                   std::string next;
+                                   if (takeNextPipelined(sid, next))
+                                   {
+                                     dispatchSequenced(sid, std::move(next));
+                                   }
+                                 }))
       {
-        // Thread pool is overloaded, send 503 Service Unavailable
-        iora::core::Logger::warning(
-          "HttpServer: Rejecting request due to thread pool overload "
-          "(queue: " +
-          std::to_string(_threadPool.getPendingTaskCount()) + "/" + std::to_string(1024) +
-          ", utilization: " + std::to_string(static_cast<int>(_threadPool.getQueueUtilization())) +
-          "%)");
-        sendErrorResponse(sid, 503, "Service Unavailable",
-                          "Server overloaded - please retry later");
+        if (_threadPool.isUnderHighLoad())
+        {
+          // Log warning when approaching capacity
+          iora::core::Logger::warning(
+            "HttpServer: High load detected (queue utilization: " +
+            std::to_string(static_cast<int>(_threadPool.getQueueUtilization())) + "%, " +
+            "active threads: " + std::to_string(_threadPool.getActiveThreadCount()) + "/" +
+            std::to_string(_threadPool.getTotalThreadCount()) + ")");
+        }
+        return;
       }
-      else if (_threadPool.isUnderHighLoad())
+
+      // Thread pool is overloaded, send 503 Service Unavailable
+      iora::core::Logger::warning(
+        "HttpServer: Rejecting request due to thread pool overload "
+        "(queue: " +
+        std::to_string(_threadPool.getPendingTaskCount()) + "/" + std::to_string(1024) +
+        ", utilization: " + std::to_string(static_cast<int>(_threadPool.getQueueUtilization())) +
+        "%)");
+      sendErrorResponse(sid, 503, "Service Unavailable",
+                        "Server overloaded - please retry later");
+
+      // The rejected request has been answered: go on with the next queued one.
+      if (!takeNextPipelined(sid, requestData))
       {
-        // Log warning when approaching capacity
-        iora::core::Logger::warning(
-          "HttpServer: High load detected (queue utilization: " +
-          std::to_string(static_cast<int>(_threadPool.getQueueUtilization())) + "%, " +
-          "active threads: " + std::to_string(_threadPool.getActiveThreadCount()) + "/" +
-          std::to_string(_threadPool.getTotalThreadCount()) + ")");
+        return;
       }
     }
+  }
+
+  /// \brief Pop the next queued pipelined request of \p sid, or mark the
+  /// connection idle when there is none (or the session is gone).
+  bool takeNextPipelined(SessionId sid, std::string &out)
+  {
+    std::lock_guard<std::mutex> lock(_sessionMutex);
+    auto it = _sessionInfo.find(sid);
+    if (it == _sessionInfo.end())
+    {
+      return false;
+    }
+    if (it->second.pendingRequests.empty())
+    {
+      it->second.requestInFlight = false;
+      return false;
+    }
+    out = std::move(it->second.pendingRequests.front());
+    it->second.pendingRequests.pop_front();
+    return true;
   }
 
   /// \brief Process a complete HTTP request
@@ -2219,6 +2274,8 @@ private:
     std::uint16_t peerPort = 0;
     bool connectionKeepAlive = true;
     std::string httpVersion = "1.1"; // Default to HTTP/1.1
+    bool requestInFlight = false;            // a request of this connection is being processed
+    std::deque<std::string> pendingRequests; // pipelined requests waiting for their turn
 
     // Buffer management constants
     static constexpr std::size_t MAX_BUFFER_SIZE = 1024 * 1024;    // 1MB max per session
